@@ -90,11 +90,14 @@ def true_marginal(inst, attrs):
 
 def measurements(inst, style="dense"):
     out = []
-    for m in inst["meas"]:
+    for i, m in enumerate(inst["meas"]):
         n = math.prod(inst["sz"][a] for a in m["proj"])
         Q = qmat(m["kind"], n)
         if m["kind"] == "none" and style in ("none", "mixed"):
             Qs = None
+        elif style == "mixed":
+            # a workload that mixes the spellings: dense, sparse and LinearOperator queries side by side
+            Qs = [Q, sparse.csr_matrix(Q), aslinearoperator(sparse.csr_matrix(Q))][i % 3]
         elif style == "sparse":
             Qs = sparse.csr_matrix(Q)
         elif style == "operator":
